@@ -84,7 +84,7 @@ func (ie *ImageExtractor) Extract(node *html.Node) webdoc.Element {
 			ie.processPicture(image)
 		}
 
-		figCaption := domutil.GetFirstElementByTagName(node, "figcaption")
+		figCaption := ie.firstRenderedFigCaption(node)
 		if figCaption == nil {
 			figCaption = ie.createFigCaption(node)
 		} else {
@@ -290,6 +290,26 @@ func (ie *ImageExtractor) imageSrcIsValid(src string) bool {
 	}
 
 	return true
+}
+
+// firstRenderedFigCaption returns the first <figcaption> of the figure that is
+// not inside a non-rendered part of it (hidden attribute, display:none, ...).
+func (ie *ImageExtractor) firstRenderedFigCaption(figure *html.Node) *html.Node {
+	for _, figCaption := range dom.GetElementsByTagName(figure, "figcaption") {
+		rendered := true
+		for p := figCaption; p != nil && p != figure; p = p.Parent {
+			if !domutil.IsProbablyVisible(p) {
+				rendered = false
+				break
+			}
+		}
+
+		if rendered {
+			return figCaption
+		}
+	}
+
+	return nil
 }
 
 func (ie *ImageExtractor) createFigCaption(base *html.Node) *html.Node {
